@@ -100,7 +100,11 @@ func r07_1(c *Ctx, rule string) {
 		return
 	}
 	if phi == nil {
-		c.R.Undecided(rule, c.name(loop)+"/id-counter", c.pos(upd), "the value stored in receiver.files is not a loop-carried SSA phi (counter kept in memory or computed otherwise); this rule cannot interpret the shape")
+		if cell := c.P.LoadedCell(upd.Value); cell != "" {
+			r07_1mem(c, rule, loop, upd, cell)
+			return
+		}
+		c.R.Undecided(rule, c.name(loop)+"/id-counter", c.pos(upd), "the value stored in receiver.files is neither a loop-carried SSA phi nor a load of a counter variable that can be traced to one allocation; this rule cannot interpret the shape")
 		return
 	}
 	nilTest := statNilTest(c, loop)
@@ -148,6 +152,92 @@ func r07_1(c *Ctx, rule string) {
 	c.R.Floor(rule, "loop edges leaving the STAT-with-stat region", n, 2)
 }
 
+// counterIncs splits the stores to the counter cell into increments by one
+// (`cell = cell + 1`) and the rest.
+func counterIncs(c *Ctx, cell string) (incs, others []*ssa.Store) {
+	for _, s := range c.P.CellStores(cell) {
+		isInc := false
+		if bo, ok := s.Val.(*ssa.BinOp); ok && bo.Op == token.ADD && c.P.LoadedCell(bo.X) == cell {
+			if k, ok := eng.ConstInt(bo.Y); ok && k == 1 {
+				isInc = true
+			}
+		}
+		if isInc {
+			incs = append(incs, s)
+		} else {
+			others = append(others, s)
+		}
+	}
+	return
+}
+
+// r07_1mem is R07.1 for a counter kept in memory (a captured variable or a
+// field of the loop's state object) instead of an SSA register: the same
+// clauses, stated over paths between two receives.
+func r07_1mem(c *Ctx, rule string, loop *ssa.Function, upd *ssa.MapUpdate, cell string) {
+	base := c.name(loop) + "/id-counter"
+	nilTest := statNilTest(c, loop)
+	recv := mainRecv(c, loop)
+	if nilTest == nil || recv == nil {
+		c.R.Missing(rule, "test `p.Stat == nil` / main-loop RecvMsg in the receive loop")
+		return
+	}
+	cond, _ := nilTest.Cond.(ssa.Instruction)
+	inLoop := map[ssa.Instruction]bool{}
+	eng.Instrs(loop, func(in ssa.Instruction) { inLoop[in] = true })
+	incs, others := counterIncs(c, cell)
+	initOK := true
+	for _, s := range others {
+		if k, ok := eng.ConstInt(s.Val); !ok || k != 0 || inLoop[s] {
+			initOK = false
+		}
+	}
+	c.R.Check(initOK, rule, base+"/initial", c.pos(upd), "the counter starts at 0 and is only ever advanced by one", "the id counter does not start at 0, or is assigned something other than counter+1")
+	isInc := func(in ssa.Instruction) bool {
+		for _, s := range incs {
+			if in == ssa.Instruction(s) {
+				return true
+			}
+		}
+		return false
+	}
+	isRecv := func(in ssa.Instruction) bool { return in == ssa.Instruction(recv) }
+	withStat := nilTest.Block().Succs[1]
+	n := 0
+	for i, s := range incs {
+		if !inLoop[s] {
+			c.R.Fail(rule, fmt.Sprintf("%s/inc#%d/in-loop", base, i+1), c.pos(s), "the id counter is advanced outside the receive loop")
+			continue
+		}
+		n++
+		con := fmt.Sprintf("%s/inc#%d", base, i+1)
+		c.R.Check(len(withStat.Instrs) > 0 && eng.Dominates(withStat.Instrs[0], s), rule, con+"/in-stat-region", c.pos(s), "the counter advances only where a STAT carrying a stat is handled",
+			"the id counter changes on a loop iteration that did not handle a STAT")
+		ok, hit, und := c.Precedes(loop, s, nil, isRecv, isInc)
+		switch {
+		case und:
+			c.R.Undecided(rule, con+"/once", c.pos(s), "state limit")
+		case !ok:
+			c.R.Fail(rule, con+"/once", c.pos(hit.Instr), "the id counter is advanced twice for one STAT: every later id is off by one against the sender's running STAT index; path "+eng.BlockTrace(loop, hit.Trace))
+		default:
+			c.R.OK(rule, con+"/once", c.pos(s), "no second increment before the next receive")
+		}
+	}
+	c.R.Floor(rule, "increments of the id counter in the receive loop", n, 1)
+	if cond != nil {
+		x := c.explorer(loop)
+		ok, hit, und := c.Precedes(loop, cond, map[string]bool{x.KeyAtEntry(nilTest.Cond): false}, isInc, isRecv)
+		switch {
+		case und:
+			c.R.Undecided(rule, base+"/every-stat-counted", c.pos(nilTest), "state limit")
+		case !ok:
+			c.R.Fail(rule, base+"/every-stat-counted", c.pos(hit.Instr), "a path that handled a STAT carrying a stat returns to the loop head without advancing the id counter: every later id is off by one against the sender's running STAT index; path "+eng.BlockTrace(loop, hit.Trace))
+		default:
+			c.R.OK(rule, base+"/every-stat-counted", c.pos(nilTest), "every path from a STAT carrying a stat to the next receive advances the counter")
+		}
+	}
+}
+
 // R07.2: ids registered pre-increment, only for selected regular files.
 func r07_2(c *Ctx, rule string) {
 	c.R.Rule(rule, "receiver.files[path] is assigned the pre-increment counter, only when the entry is selected (not metadata-only) and fileCanRequestData(mode)")
@@ -161,7 +251,22 @@ func r07_2(c *Ctx, rule string) {
 		return
 	}
 	con := c.name(loop) + "/files-update"
-	c.R.Check(phi != nil && eng.Strip(upd.Value) == ssa.Value(phi), rule, con+"/value", c.pos(upd), "the stored id is the loop counter before its increment", "the id stored in receiver.files is not the pre-increment counter")
+	if cell := c.P.LoadedCell(upd.Value); phi == nil && cell != "" {
+		// counter kept in memory: the stored id is a load of the counter that no increment of this iteration precedes
+		incs, _ := counterIncs(c, cell)
+		recv := mainRecv(c, loop)
+		ld, _ := eng.Strip(upd.Value).(ssa.Instruction)
+		pre := recv != nil && ld != nil && len(incs) > 0
+		for _, s := range incs {
+			ok, _, und := c.Precedes(loop, s, nil, func(in ssa.Instruction) bool { return in == ssa.Instruction(recv) }, func(in ssa.Instruction) bool { return in == ld })
+			if und || !ok {
+				pre = false
+			}
+		}
+		c.R.Check(pre, rule, con+"/value", c.pos(upd), "the stored id is the loop counter before its increment", "the id stored in receiver.files is not the pre-increment counter")
+	} else {
+		c.R.Check(phi != nil && eng.Strip(upd.Value) == ssa.Value(phi), rule, con+"/value", c.pos(upd), "the stored id is the loop counter before its increment", "the id stored in receiver.files is not the pre-increment counter")
+	}
 	// key is p.Stat.Path
 	c.R.Check(isFieldLoad(upd.Key, "types.Stat.Path"), rule, con+"/key", c.pos(upd), "keyed by the stat's path", "receiver.files is not keyed by the stat's path")
 	isUpd := func(in ssa.Instruction) bool { return in == ssa.Instruction(upd) }
